@@ -31,8 +31,10 @@ class XmlEventHandler(XmlHandler):
             source = source.getroot()
 
         if isinstance(source, etree.Element):
-            ctx = iterwalk(source, {})
-        elif self.parser.config.process_xinclude:
+            # The tree belongs to the caller, leave it intact
+            return self.process_context(iterwalk(source, {}), ns_map, clear=False)
+
+        if self.parser.config.process_xinclude:
             try:
                 root = etree.parse(source).getroot()  # nosec
             except (LookupError, ValueError) as e:
@@ -49,13 +51,17 @@ class XmlEventHandler(XmlHandler):
         return self.process_context(ctx, ns_map)
 
     def process_context(
-        self, context: Iterable[tuple[str, Any]], ns_map: dict[str | None, str]
+        self,
+        context: Iterable[tuple[str, Any]],
+        ns_map: dict[str | None, str],
+        clear: bool = True,
     ) -> Any:
         """Iterate context and push events to main parser.
 
         Args:
             context: The iterable xml context
             ns_map: A namespace prefix-URI recorder map
+            clear: Whether to release the elements after their end event
 
         Returns:
             An instance of the class type representing the parsed content.
@@ -80,7 +86,8 @@ class XmlEventHandler(XmlHandler):
                     element.text,
                     element.tail,
                 )
-                element.clear()
+                if clear:
+                    element.clear()
             elif event == EventType.START_NS:
                 prefix, uri = element
                 prefix = prefix or None
